@@ -82,14 +82,15 @@ def _mc_files(workdir, cfg, oracle, name, hist=False, **cfgkw):
     os.makedirs(workdir, exist_ok=True)
     mod = os.path.join(workdir, f'{name}.tla')
     cons = list(cfgkw.pop('constraints', []) or [])
+    consts = ds.cfg_constants(cfg, oracle, hist=hist)
+    consts['NSW'] = ('<-', 'mc_NSW')
+    negs = ds.negative_constants(consts)
     with open(mod, 'w') as f:
-        f.write('---- MODULE %s ----\nEXTENDS PfasstSerial\nmc_NSW == %s\n' % (name, tlc.tla_value(list(cfg['NSW']))))
+        f.write('---- MODULE %s ----\nEXTENDS PfasstSerial\nmc_NSW == %s\n%s' % (name, tlc.tla_value(list(cfg['NSW'])), negs))
         for i, c in enumerate(cons):
             f.write(f'mc_C{i} == {c}\n')
         f.write('====\n')
     cfgkw['constraints'] = [f'mc_C{i}' for i in range(len(cons))]
-    consts = ds.cfg_constants(cfg, oracle, hist=hist)
-    consts['NSW'] = ('<-', 'mc_NSW')
     cfgp = os.path.join(workdir, f'{name}.cfg')
     tlc.write_cfg(cfgp, constants=consts, **cfgkw)
     return cfgp
